@@ -9,6 +9,7 @@ import (
 	"net/http/httptest"
 	"net/url"
 	"path"
+	"strconv"
 	"strings"
 	"testing"
 
@@ -259,10 +260,12 @@ func c08Run(c c08Case) *Violation {
 		return violation("C08", "redirect-no-redir", "login redirect %q carries no single redir parameter", loc)
 	}
 	back, err := url.Parse(redirs[0])
-	wantPath := u.Path
+	// "Returns there" is judged on the escaped path: an escaped reserved character (%2F, %3B ...)
+	// and the character itself name different resources; only unreserved characters may change spelling.
+	wantPath := normEscapedPath(u.EscapedPath())
 	gotPath := ""
 	if err == nil {
-		gotPath = back.Path
+		gotPath = normEscapedPath(back.EscapedPath())
 	}
 	if row.Mounted && row.Mount != "" {
 		// Mount-pathed targets are built with path.Join (documented), which resolves dot
@@ -276,7 +279,7 @@ func c08Run(c c08Case) *Violation {
 				return nil
 			}
 		}
-		wantPath = path.Clean(row.Mount + "/" + u.Path)
+		wantPath = path.Clean(row.Mount + "/" + wantPath)
 		gotPath = path.Clean(gotPath)
 	}
 	cls := c08PathClass(c)
@@ -286,6 +289,28 @@ func c08Run(c c08Case) *Violation {
 			c.RawPath, c.RawQuery, u.Path, redirs[0], gotPath, backQ(back), wantPath, c.RawQuery)
 	}
 	return nil
+}
+
+// normEscapedPath applies RFC 3986 normalisation to an escaped path: escapes of
+// unreserved characters are decoded, all other escapes are kept (upper-case hex).
+func normEscapedPath(p string) string {
+	var sb strings.Builder
+	for i := 0; i < len(p); i++ {
+		if p[i] == '%' && i+2 < len(p) {
+			if v, err := strconv.ParseUint(p[i+1:i+3], 16, 8); err == nil {
+				c := byte(v)
+				if c >= 'a' && c <= 'z' || c >= 'A' && c <= 'Z' || c >= '0' && c <= '9' || c == '-' || c == '.' || c == '_' || c == '~' {
+					sb.WriteByte(c)
+				} else {
+					sb.WriteString("%" + strings.ToUpper(p[i+1:i+3]))
+				}
+				i += 2
+				continue
+			}
+		}
+		sb.WriteByte(p[i])
+	}
+	return sb.String()
 }
 
 func backQ(u *url.URL) string {
@@ -353,7 +378,7 @@ func c08GenPath(t *rapid.T) string {
 	segGen := rapid.OneOf(
 		rapid.StringMatching(`[a-z0-9]{1,6}`),
 		rapid.StringMatching(`[a-zA-Z0-9._~-]{1,8}`),
-		rapid.SampledFrom([]string{"x?y", "a#b", "50%", "a b", "a+b", "q&r=s", "é", "日本", "..", ".", "a;b", "a=b", "%41", "x%3Fy", "\"q\"", "<s>", "a:b", "@", "*", "a,b", "a\\b"}),
+		rapid.SampledFrom([]string{"x?y", "a#b", "50%", "a b", "a+b", "q&r=s", "é", "日本", "..", ".", "a;b", "a=b", "%41", "x%3Fy", "\"q\"", "<s>", "a:b", "@", "*", "a,b", "a\\b", "a/b", "/", "x/../y"}),
 		rapid.StringOfN(rapid.Rune(), 1, 4, -1),
 	)
 	n := rapid.IntRange(0, 4).Draw(t, "nseg")
@@ -365,9 +390,10 @@ func c08GenPath(t *rapid.T) string {
 		encAll := rapid.IntRange(0, 5).Draw(t, "encall") == 0
 		for j := 0; j < len(seg); j++ {
 			b := seg[j]
-			if b == '/' || b == 0 {
+			if b == 0 {
 				b = '_'
 			}
+			// a '/' inside a segment always travels escaped (%2F): it is data, not a separator
 			if !encAll && strings.IndexByte(c08Unreserved+"!$&'()*+,;=:@", b) >= 0 {
 				sb.WriteByte(b)
 			} else {
